@@ -464,6 +464,11 @@ func (a *Act) binop(x *ssa.BinOp) Val {
 				term, _ = a.bitConst(x.Op, l.Term, c, t)
 			} else if c, ok := constInt(x.X); ok && x.Op != token.AND_NOT {
 				term, _ = a.bitConst(x.Op, r.Term, c, t)
+			} else if sh, other, ok := singleBitMask(x.X, x.Y); ok && x.Op == token.AND {
+				// x & (1 << j): bit j of x, kept in place
+				j := a.val(sh).Term
+				xo := a.val(other).Term
+				term = ite(app("=", app("mod", app("div", xo, app("pow2", j)), "2"), "1"), app("pow2", j), "0")
 			} else {
 				a.vc.note("bit operation with two variable operands abstracted: " + src)
 				fv := a.freshVal(t, "bitop", a.cur)
@@ -554,6 +559,9 @@ func (a *Act) convert(x *ssa.Convert) Val {
 				if bl != nil && bh != nil && fl != nil && fh != nil && bl.Cmp(fl) <= 0 && bh.Cmp(fh) >= 0 {
 					needs = false
 				}
+			}
+			if needs && is64(t) && is64(x.X.Type()) {
+				needs = false // 64-bit to 64-bit: covered by the stated "no 64-bit overflow" assumption
 			}
 			if needs {
 				a.safe("conv", exprText(a.fn, x.X)+"->"+typeName(t), and(app("<=", lo, v.Term), app("<=", v.Term, hi)), "conversion to "+typeName(t)+" must not change the value", x.Pos())
@@ -684,4 +692,38 @@ func (a *Act) sliceOp(x *ssa.Slice) Val {
 	}
 	a.unsup("Slice on %s", x.X.Type())
 	return a.freshVal(x.Type(), "slc", a.cur)
+}
+
+// singleBitMask recognises the operands of x & (1 << j) (in either order, through integer
+// conversions) and returns the shift count j and the other operand.
+func singleBitMask(a, b ssa.Value) (shift ssa.Value, other ssa.Value, ok bool) {
+	strip := func(v ssa.Value) ssa.Value {
+		for {
+			switch c := v.(type) {
+			case *ssa.Convert:
+				v = c.X
+			case *ssa.ChangeType:
+				v = c.X
+			default:
+				return v
+			}
+		}
+	}
+	isOneShl := func(v ssa.Value) (ssa.Value, bool) {
+		bo, isB := strip(v).(*ssa.BinOp)
+		if !isB || bo.Op != token.SHL {
+			return nil, false
+		}
+		if c, isC := constInt(bo.X); isC && c.IsInt64() && c.Int64() == 1 {
+			return bo.Y, true
+		}
+		return nil, false
+	}
+	if j, y := isOneShl(b); y {
+		return j, a, true
+	}
+	if j, y := isOneShl(a); y {
+		return j, b, true
+	}
+	return nil, nil, false
 }
